@@ -305,6 +305,7 @@ class TypeDB:
     def __init__(self):
         self.defs = []                 # [TypeDef]
         self.by_name = {}              # simple name -> [TypeDef]
+        self.imports = {}              # crate -> {simple name: crate it is imported from}
 
     def add_crate(self, crate, srcdir, features):
         for root, dirs, files in os.walk(srcdir):
@@ -322,6 +323,11 @@ class TypeDB:
                 src = re.sub(r"#\[cfg\(test\)\]\s*(pub\s+)?mod\s+\w+\s*\{", "#[cfg(test)] mod __t {", src)
                 k = src.find("#[cfg(test)] mod __t {")
                 if k >= 0: src = src[:k]
+                for m in re.finditer(r"\buse\s+([a-z_][a-z0-9_]*)::([^;]+);", strip_comments(src)):
+                    src_crate = m.group(1).replace("_", "-")
+                    if src_crate in ("crate", "self", "super", "std", "core", "alloc"): continue
+                    for nm in re.findall(r"\b([A-Z][A-Za-z0-9_]*)\b", m.group(2)):
+                        self.imports.setdefault(crate, {}).setdefault(nm, src_crate)
                 try:
                     for td in parse_source(src, crate, module, features, p):
                         self.defs.append(td)
@@ -351,6 +357,7 @@ class TypeDB:
                 if not ok: continue
                 score += 10 * len(quals)
             if prefer_crate and td.crate == prefer_crate: score += 5
+            if prefer_crate and self.imports.get(prefer_crate, {}).get(name) == td.crate: score += 4
             scored.append((score, td))
         if not scored: return None
         scored.sort(key=lambda x: -x[0])
